@@ -97,6 +97,7 @@ const HELPERS: &[(&str, &str)] = &[
     ),
     ("vfill2", "(define (vfill2 v i x) (vector-set! v i x) (vfill! v (+ i 1) x))"),
     ("vfill!", "(define (vfill! v i x) (if (< i (vector-length v)) (vfill2 v i x) x))"),
+    ("make-ctr0", "(define (make-ctr0) (define n 0) (lambda () (set! n (+ n 1)) n))"),
     ("f0", "(define (f0) 10)"),
     ("f2", "(define (f2 a b) (+ a b))"),
     ("fr", "(define (fr a b . r) (+ a b))"),
@@ -919,6 +920,45 @@ impl Gen {
                 );
                 true
             }
+            31 => {
+                // a PARAMETERLESS procedure with an internal definition: the definition belongs
+                // to the call, not to the frame the procedure was created in
+                if self.rng.chance(1, 2) {
+                    let Some(name) = self.pick_name(Role::Int) else { return false };
+                    let helper = format!("si0-{}", name);
+                    if !self.helpers.contains(&helper) {
+                        self.helpers.insert(helper.clone());
+                        let k = self.small_lit();
+                        self.emit(
+                            list(vec![
+                                sym("define"),
+                                list(vec![sym(&helper)]),
+                                list(vec![sym("define"), sym(&name), int(k)]),
+                                list(vec![sym("set!"), sym(&name), call("+", vec![sym(&name), int(1)])]),
+                                sym(&name),
+                            ]),
+                            "def-shadow-internal-noargs",
+                            vec![],
+                            false,
+                        );
+                    }
+                    self.emit(list(vec![sym(&helper)]), "shadow-internal-noargs", vec![helper, name], false);
+                } else {
+                    if self.names_with(Role::Counter).len() >= 8 {
+                        return false;
+                    }
+                    self.need("make-ctr0");
+                    let c = self.fresh("c");
+                    self.roles.insert(c.clone(), Role::Counter);
+                    self.emit(
+                        list(vec![sym("define"), sym(&c), list(vec![sym("make-ctr0")])]),
+                        "mk-counter-noargs",
+                        vec![c],
+                        true,
+                    );
+                }
+                true
+            }
             29 => {
                 // a closure stored in a vector slot, then called through the slot
                 let Some((path, id, mut roots)) = self.vec_path() else { return false };
@@ -1413,9 +1453,20 @@ impl Gen {
         if top {
             labels.push("top-level".into());
         }
+        let in_definition = int_valued && self.rng.chance(1, 4);
+        if in_definition {
+            labels.push("definition-initialiser".into());
+        }
         let kind_label = format!("fault:{}", labels.join(">"));
         for _ in 0..repeat {
-            self.emit(e.clone(), &kind_label, vec![], true);
+            if in_definition {
+                // the name must not come into being when its initialiser faults
+                let name = self.fresh("df");
+                self.emit(list(vec![sym("define"), sym(&name), e.clone()]), &kind_label, vec![], true);
+                self.emit(sym(&name), "probe-defined-name", vec![], false);
+            } else {
+                self.emit(e.clone(), &kind_label, vec![], true);
+            }
         }
     }
 }
@@ -1425,7 +1476,7 @@ pub fn generate_a(seed: u64, quick: bool, faults: bool) -> Value {
     let hash_seed = rng.next_u64() | 1;
     // swarm configuration
     let steps = if quick { rng.range(10, 40) } else { rng.range(10, 60) } as usize;
-    let nops = 31;
+    let nops = 32;
     let mut weights: Vec<u32> = (0..nops).map(|_| if rng.chance(1, 4) { 0 } else { rng.range(1, 6) as u32 }).collect();
     if weights.iter().all(|w| *w == 0) {
         weights[0] = 1;
@@ -1711,6 +1762,24 @@ fn execute_a(case: Value) -> RunResult {
                         break;
                     }
                     collect_vectors(&m, rv, &v, &mut vecs, 0);
+                }
+            }
+        }
+        if bad_global.is_none() {
+            let model_names = m.root.vars.borrow();
+            let mut defs = real.it.env.iter_local_definitions();
+            for (k, v) in &mut *defs {
+                if model_names.contains_key(k) {
+                    continue;
+                }
+                let digits = k.trim_start_matches(|c: char| c.is_ascii_alphabetic());
+                let prefix = &k[..k.len() - digits.len()];
+                let ours = !digits.is_empty()
+                    && digits.chars().all(|c| c.is_ascii_digit())
+                    && matches!(prefix, "g" | "c" | "a" | "p" | "v" | "l" | "vs" | "vg" | "al" | "ad" | "cl" | "nf" | "df" | "tx" | "to");
+                if ours {
+                    bad_global = Some((k.clone(), "<unbound>".to_string(), obs_of_value(v).short()));
+                    break;
                 }
             }
         }
